@@ -125,7 +125,7 @@ func (x *executor) intrinsic(m *machine, fr *frame, in ssa.Instruction, res ssa.
 		}
 		return false
 	}
-	if x.timeIntrinsic(m, fr, in, res, key, args) {
+	if x.timeIntrinsic(m, fr, in, res, key, fn, args) {
 		return true
 	}
 	switch key {
